@@ -1,6 +1,7 @@
 /-
   C01 — dictable behaves as a rectangular list of records under any operation history.
-  Property theorems only (helper lemmas: PygProofs/Lemmas/TableLemmas.lean, TableRect.lean, TableRows.lean).
+  Property theorems only (helper lemmas: PygProofs/Lemmas/TableLemmas, TableRect, TableRows, TableCons, TableNodup,
+  SliceLemmas, TableAbs, TableAbs2, TableAbsHeap, TableCall).
 
   The model is the history machine `step : Heap → Op → Heap × Out` of PygModel/Table.lean; `run` folds it
   over an operation list.  Clauses of the property text and the theorems that state them:
@@ -14,6 +15,13 @@
     * operations returning a new table never alter their operands ... `frame_step`
     * a non-fitting assignment is rejected with ValueError and leaves the table rectangular
                                                                       `setitem_reject`, `setitem_reject_step`, `err_unchanged`
+    * "equals what the same sequence yields on a plain list-of-records model" — the simulation theorem
+      `abs_step` / `abs_run` against the reference machine `specStep` of PygModel/TableSpec.lean (every `Op`,
+      all arguments, outcomes incl. error kinds), per-operation lemmas in Lemmas/TableAbs*.lean
+    * derived columns with several callables .......................... `call_order`, `call_circular`
+    * update, tuple projection ........................................ `update_all`, `update_misfit`, `tup_rows`
+    * column order of concatenations (python set) ..................... `RecsEquiv`, `concat_keys_perm`, `concat_any_order`, `equiv_observe`
+    * stretch .......................................................... `concat_assoc`, `mask_col`
 -/
 import PygProofs.Lemmas.TableAbsHeap
 import PygProofs.Lemmas.TableCall
